@@ -3,6 +3,7 @@ package main
 import (
 	"fmt"
 	"go/ast"
+	"go/token"
 	"go/types"
 	"os"
 	"sort"
@@ -120,4 +121,183 @@ func renameLocals(e *Engine, params bool) {
 		}
 	}
 	fmt.Printf("renamed %d identifiers\n", n)
+}
+
+// swapBranches is a second self-test aid (`-dump swapbranches`, scratch copies only): every `if c { A } else { B }`
+// whose else part is a plain block becomes `if !(c) { B } else { A }`.  Behaviour is unchanged.
+func swapBranches(e *Engine) {
+	n := 0
+	for _, p := range e.Pkgs {
+		if !smPkgs[p.PkgPath] {
+			continue
+		}
+		for i, f := range p.Syntax {
+			fname := p.CompiledGoFiles[i]
+			if e.isGenerated(f.Pos()) {
+				continue
+			}
+			src, err := os.ReadFile(fname)
+			if err != nil {
+				continue
+			}
+			off := func(pos token.Pos) int { return p.Fset.Position(pos).Offset }
+			type rep struct {
+				a, e int
+				text string
+			}
+			var reps []rep
+			var visit func(nd ast.Node) bool
+			visit = func(nd ast.Node) bool {
+				iff, ok := nd.(*ast.IfStmt)
+				if !ok {
+					return true
+				}
+				els, ok := iff.Else.(*ast.BlockStmt)
+				if !ok {
+					return true
+				}
+				// innermost first would need nested rewriting: rewrite only ifs that contain no other rewritable if
+				nested := false
+				ast.Inspect(iff.Body, func(x ast.Node) bool {
+					if y, ok := x.(*ast.IfStmt); ok {
+						if _, ok := y.Else.(*ast.BlockStmt); ok {
+							nested = true
+						}
+					}
+					return true
+				})
+				ast.Inspect(els, func(x ast.Node) bool {
+					if y, ok := x.(*ast.IfStmt); ok {
+						if _, ok := y.Else.(*ast.BlockStmt); ok {
+							nested = true
+						}
+					}
+					return true
+				})
+				if nested {
+					return true
+				}
+				cond := string(src[off(iff.Cond.Pos()):off(iff.Cond.End())])
+				body := string(src[off(iff.Body.Pos()):off(iff.Body.End())])
+				elseT := string(src[off(els.Pos()):off(els.End())])
+				reps = append(reps, rep{off(iff.Cond.Pos()), off(els.End()), "!(" + cond + ") " + elseT + " else " + body})
+				return false
+			}
+			ast.Inspect(f, visit)
+			if len(reps) == 0 {
+				continue
+			}
+			sort.Slice(reps, func(i, j int) bool { return reps[i].a > reps[j].a })
+			out := append([]byte{}, src...)
+			for _, r := range reps {
+				out = append(append(append([]byte{}, out[:r.a]...), []byte(r.text)...), out[r.e:]...)
+				n++
+			}
+			if err := os.WriteFile(fname, out, 0o644); err != nil {
+				fmt.Fprintln(os.Stderr, "write:", err)
+				os.Exit(2)
+			}
+		}
+	}
+	fmt.Printf("renamed 0 identifiers; swapped %d if/else statements\n", n)
+}
+
+// indexLoops is a third self-test aid (`-dump indexloops`, scratch copies only): every `for k, v := range xs` over a
+// slice-typed variable or field that the loop body does not assign becomes the equivalent explicit index loop.
+func indexLoops(e *Engine) {
+	n := 0
+	for _, p := range e.Pkgs {
+		if !smPkgs[p.PkgPath] {
+			continue
+		}
+		info := p.TypesInfo
+		for i, f := range p.Syntax {
+			fname := p.CompiledGoFiles[i]
+			if e.isGenerated(f.Pos()) {
+				continue
+			}
+			src, err := os.ReadFile(fname)
+			if err != nil {
+				continue
+			}
+			off := func(pos token.Pos) int { return p.Fset.Position(pos).Offset }
+			type rep struct {
+				a, e int
+				text string
+			}
+			var reps []rep
+			ast.Inspect(f, func(nd ast.Node) bool {
+				rs, ok := nd.(*ast.RangeStmt)
+				if !ok || rs.Tok != token.DEFINE {
+					return true
+				}
+				if _, isSlice := info.TypeOf(rs.X).Underlying().(*types.Slice); !isSlice {
+					return true
+				}
+				// X: identifier or selector chain
+				var root *ast.Ident
+				x := rs.X
+				for root == nil {
+					switch y := x.(type) {
+					case *ast.Ident:
+						root = y
+					case *ast.SelectorExpr:
+						x = y.X
+					default:
+						return true
+					}
+				}
+				rootObj := info.Uses[root]
+				assigned := false
+				ast.Inspect(rs.Body, func(b ast.Node) bool {
+					switch y := b.(type) {
+					case *ast.AssignStmt:
+						for _, l := range y.Lhs {
+							ast.Inspect(l, func(z ast.Node) bool {
+								if id, ok := z.(*ast.Ident); ok && info.Uses[id] == rootObj {
+									assigned = true
+								}
+								return true
+							})
+						}
+					case *ast.UnaryExpr:
+						if y.Op == token.AND {
+							assigned = true
+						}
+					case *ast.FuncLit:
+						assigned = true
+					}
+					return true
+				})
+				if assigned {
+					return true
+				}
+				n++
+				idx := fmt.Sprintf("idxGen%d", n)
+				if k, ok := rs.Key.(*ast.Ident); ok && k.Name != "_" {
+					idx = k.Name
+				}
+				xs := string(src[off(rs.X.Pos()):off(rs.X.End())])
+				head := fmt.Sprintf("for %s := 0; %s < len(%s); %s++ {", idx, idx, xs, idx)
+				if v, ok := rs.Value.(*ast.Ident); ok && v.Name != "_" {
+					head += fmt.Sprintf("\n%s := %s[%s]\n_ = %s", v.Name, xs, idx, v.Name)
+				}
+				reps = append(reps, rep{off(rs.Pos()), off(rs.Body.Lbrace) + 1, head})
+				return true
+			})
+			if len(reps) == 0 {
+				continue
+			}
+			sort.Slice(reps, func(i, j int) bool { return reps[i].a > reps[j].a })
+			out := append([]byte{}, src...)
+			for _, r := range reps {
+				out = append(append(append([]byte{}, out[:r.a]...), []byte(r.text)...), out[r.e:]...)
+			}
+			if err := os.WriteFile(fname, out, 0o644); err != nil {
+				fmt.Fprintln(os.Stderr, "write:", err)
+				os.Exit(2)
+			}
+		}
+	}
+	fmt.Printf("renamed 0 identifiers; rewrote %d range loops\n", n)
 }
